@@ -40,13 +40,24 @@ def _strategy(tier, var):
         return {"dim": dim, "kernel": kt, "dtype": dtype, "vector": vec,
                 "dx": ibm.DX_PALETTE[0] if large else draw(st.sampled_from(ibm.DX_PALETTE)), "n": n,
                 "marker_key": draw(gen.block_keys) if large else None,
-                "shape": draw(gen.grid_shape(dim, 8 if large else 6, hi)), "markers": draw(ibm.marker_spec(dim, 6 if large else n)),
+                "shape": _elongate(draw, draw(gen.grid_shape(dim, 8 if large else 6, hi)), dim, tier), "markers": draw(ibm.marker_spec(dim, 6 if large else n)),
                 "u": draw(gen.vector_field_spec(nc, max_mag_exp=6)), "prefill": draw(gen.vector_field_spec(nc, max_mag_exp=6)),
                 "F": draw(st.lists(st.lists(gen.floats(-8.0, 8.0, 32), min_size=min(n, 40), max_size=min(n, 40)), min_size=nc, max_size=nc)),
                 "F_exp": draw(st.integers(-6, 6)), "calls": draw(st.integers(1, 3)),
                 "point": draw(st.lists(gen.floats(-1.0, 2.0, 32), min_size=dim, max_size=dim))}
 
     return case()
+
+
+def _elongate(draw, shape, dim, tier):
+    """with probability 1/4 stretch one axis (markers then sit at large coordinates / cell indices)"""
+    if draw(st.integers(0, 3)) != 0:
+        return shape
+    ax = draw(st.integers(0, dim - 1))
+    long_n = draw(st.integers(200 if dim == 2 else 60, (1500 if dim == 2 else 300) if tier == "thorough" else (500 if dim == 2 else 120)))
+    shape = [min(n, 8) for n in shape]
+    shape[ax] = long_n
+    return shape
 
 
 def _body(case, ctx):
@@ -116,7 +127,8 @@ def _body(case, ctx):
             mom_grid = (SF * xg).sum(axis=axes) * vol
             mom_lag = (F64 * (pos[c] - P[c])).sum(axis=-1)
             L = max(shape) * dx
-            tol3 = 64 * eps * L * (float(np.sum(np.abs(F64))) + pre_mag * vol * np.prod(shape)) + 1e-300
+            ceps3 = float(np.finfo(np.float64).eps) * (float(np.max(np.abs(pos))) / dx + 1.0)
+            tol3 = 64 * (eps + ceps3) * L * (float(np.sum(np.abs(F64))) + pre_mag * vol * np.prod(shape)) + 1e-300
             if np.any(np.abs(mom_grid - mom_lag) > tol3):
                 raise Violation(f"Peskin spreading does not preserve the first moment along axis {c}: grid {np.atleast_1d(mom_grid).tolist()} "
                                 f"vs markers {np.atleast_1d(mom_lag).tolist()}")
@@ -125,7 +137,9 @@ def _body(case, ctx):
     want = pre.astype(np.float64) + calls * ref
     scale = pre_mag + calls * float(np.max(np.abs(F64)) * n) / vol
     err = float(np.max(np.abs(eul.astype(np.float64) - want)))
-    tol4 = 64 * eps * scale + 64 * float(np.finfo(real_t).tiny)
+    # the independent reference evaluates the delta function at distances that carry eps64*|X| rounding (see C06)
+    ceps = float(np.finfo(np.float64).eps) * (float(np.max(np.abs(pos))) / dx + 1.0)
+    tol4 = 64 * (eps + ceps) * scale + 64 * float(np.finfo(real_t).tiny)
     if err > tol4:
         i = np.unravel_index(int(np.argmax(np.abs(eul.astype(np.float64) - want))), want.shape)
         raise Violation(f"spreading does not accumulate: target {float(eul[i])!r} vs pre-fill + {calls} x reference spread {want[i]!r} at {tuple(int(q) for q in i)} "
@@ -137,7 +151,7 @@ def _body(case, ctx):
         np.fill_diagonal(d, np.inf)
         overlap = bool(np.any(d < 4 * dx))
     ctx.note(nontrivial=overlap and pre_mag > 0,
-             labels=[f"{dim}d_{kt}_{case['dtype']}_{'vec' if vec else 'sca'}", f"calls{calls}", f"markers_{n}"]
+             labels=[f"{dim}d_{kt}_{case['dtype']}_{'vec' if vec else 'sca'}", f"calls{calls}", f"markers_{n}"] + (["elongated_grid"] if max(shape) >= 100 else [])
              + (["duplicates"] if "duplicate" in labels[1:] else []) + (["same_cell"] if "same_cell" in labels[1:] else []))
 
 
